@@ -17,11 +17,11 @@ def parse_scheds(out):
     return res
 
 
-def gen_cfg(n, maxtime, budget, faults, toggles, removal, remotes, histmax, maxatt, crashes, startby):
+def gen_cfg(n, maxtime, budget, faults, toggles, removal, remotes, histmax, maxatt, crashes, startby, healodds=3):
     return ("SPECIFICATION Spec\nCONSTANTS\n N = %d\n MaxTime = %d\n MaxSkew = 0\n Budget = %d\n Variant = \"code\"\n"
             " Faults <- %s\n MaxToggle = %d\n Removal = %s\n Remotes <- %s\n MaxWaits = 4\n HistMax = %d\n Emit = TRUE\n"
-            " MaxAtt = %d\n Crashes = %s\n StartBy = %d\nCHECK_DEADLOCK FALSE\n"
-            % (n, maxtime, budget, faults, toggles, removal, remotes, histmax, maxatt, crashes, startby))
+            " MaxAtt = %d\n Crashes = %s\n StartBy = %d\n HealOdds = %d\nCHECK_DEADLOCK FALSE\n"
+            % (n, maxtime, budget, faults, toggles, removal, remotes, histmax, maxatt, crashes, startby, healodds))
 
 
 def generate(ctx, families, per_family, jobs=6):
